@@ -439,6 +439,7 @@ func IntBin(op string, a, b Term) Term {
 
 // Ctx collects declarations and named definitions for one SMT file.
 type Ctx struct {
+	storeDefs map[string][3]string // named store terms: name -> (array, index, value)
 	sorts    map[string]bool
 	decls    []string // in order
 	declared map[string]Sort
@@ -545,7 +546,89 @@ func (c *Ctx) Name(hint string, t Term) Term {
 	c.decls = append(c.decls, fmt.Sprintf("(define-fun %s () %s %s)", name, t.Sort, t.S))
 	c.declared[name] = t.Sort
 	c.named[t.S] = name
+	if strings.HasPrefix(t.S, "(store ") {
+		if parts := splitArgs(t.S[len("(store ") : len(t.S)-1]); len(parts) == 3 {
+			if c.storeDefs == nil {
+				c.storeDefs = map[string][3]string{}
+			}
+			c.storeDefs[name] = [3]string{parts[0], parts[1], parts[2]}
+		}
+	}
 	return Term{S: name, Sort: t.Sort}
+}
+
+// SelectThrough is Select with read-over-write through named store definitions: when arr is (a name for) a store at a
+// syntactically identical index, the stored value is returned; when the index is a different *fresh-object constant*
+// nothing is concluded (that needs the solver). Only the identical-index case is resolved here.
+func (c *Ctx) SelectThrough(arr, idx Term) Term {
+	_, el, ok := ArrayParts(arr.Sort)
+	if !ok {
+		return Select(arr, idx)
+	}
+	cur := arr.S
+	for i := 0; i < 64; i++ {
+		var parts [3]string
+		if d, ok := c.storeDefs[cur]; ok {
+			parts = d
+		} else if strings.HasPrefix(cur, "(store ") {
+			ps := splitArgs(cur[len("(store ") : len(cur)-1])
+			if len(ps) != 3 {
+				break
+			}
+			parts = [3]string{ps[0], ps[1], ps[2]}
+		} else {
+			break
+		}
+		if parts[1] == idx.S {
+			return Term{S: parts[2], Sort: el}
+		}
+		break // a different index term: may or may not alias
+	}
+	return Select(arr, idx)
+}
+
+// splitArgs splits the arguments of an s-expression body at top level (parentheses and |quoted symbols| respected).
+func splitArgs(s string) []string {
+	var out []string
+	depth := 0
+	inBar := false
+	start := -1
+	for i := 0; i < len(s); i++ {
+		ch := s[i]
+		if inBar {
+			if ch == '|' {
+				inBar = false
+			}
+			continue
+		}
+		switch ch {
+		case '|':
+			inBar = true
+			if start < 0 {
+				start = i
+			}
+		case '(':
+			if start < 0 {
+				start = i
+			}
+			depth++
+		case ')':
+			depth--
+		case ' ', '\t', '\n':
+			if depth == 0 && start >= 0 {
+				out = append(out, s[start:i])
+				start = -1
+			}
+		default:
+			if start < 0 {
+				start = i
+			}
+		}
+	}
+	if start >= 0 {
+		out = append(out, s[start:])
+	}
+	return out
 }
 
 // Axiom adds a global assertion (part of every query of the file).
